@@ -81,8 +81,8 @@ void vp_set_thread(int tid) {
 }
 
 /* saved bump pointers of the two logical threads of a sequentialised schedule */
-static uint64_t vp_ctx_hp[2], vp_ctx_sp[2];
-static uint64_t vp_ctx_exc[2];
+static uint64_t vp_ctx_hp[VP_NTHREADS + 1], vp_ctx_sp[VP_NTHREADS + 1];
+static uint64_t vp_ctx_exc[VP_NTHREADS + 1];
 static void vp_switch_ctx(int tid);
 
 void vp_init(void) {
@@ -300,19 +300,60 @@ void vp_run_pending_unit(void) {
   vp_switch_ctx(0);
   vp_pre_inside = 0;
 }
-static inline void vp_preempt_point(void) {
+static void vp2_point(void);
+static inline void vp_preempt_point1(void) {
   if (!vp_pre_enabled || vp_pre_inside) return;
   if (vp_pre_count == vp_pre_k) vp_run_pending_unit();
   vp_pre_count++;
 }
+#define vp_preempt_point() do { vp_preempt_point1(); vp2_point(); } while (0)
+/* ---- generalised scheduler (several pending units, each triggered at the k-th schedule point of a given context; a blocked
+ * context lets the next pending unit run).  Context 0 = the outer unit, unit u runs as context u+1 with its own arenas. */
+#define VP_MAXU 4
+int vp2_enabled, vp2_nunits, vp2_ctx;
+int vp2_u_ctx[VP_MAXU], vp2_u_k[VP_MAXU], vp2_u_ran[VP_MAXU], vp2_cnt[VP_MAXU + 1];
+void vp_unit_run(int u); /* generated entry file: runs pending unit u */
+static void vp2_run(int u) {
+  int prev = vp2_ctx;
+  vp2_u_ran[u] = 1;
+  vp_switch_ctx(u + 1);
+  vp2_ctx = u + 1;
+  vp_unit_run(u);
+  vp2_ctx = prev;
+  vp_switch_ctx(prev);
+}
+static void vp2_point(void) {
+  if (!vp2_enabled) return;
+  int c = vp2_ctx;
+  for (int u = 0; u < VP_MAXU; u++)
+    if (u < vp2_nunits && !vp2_u_ran[u] && vp2_u_ctx[u] == c && vp2_u_k[u] == vp2_cnt[c]) vp2_run(u);
+  vp2_cnt[c]++;
+}
+static int vp2_yield(void) {
+  if (!vp2_enabled) return 0;
+  for (int u = 0; u < VP_MAXU; u++)
+    if (u < vp2_nunits && !vp2_u_ran[u]) { vp2_run(u); return 1; }
+  return 0;
+}
+void vp2_run_rest(void) { while (vp2_yield()) {} }
 void vp_sync_point(void) { vp_preempt_point(); }
-int vp_yield_to_pending(void) { if (!vp_pre_enabled || vp_pre_ran || vp_pre_inside) return 0; vp_run_pending_unit(); return 1; }
+int vp_yield_to_pending(void) {
+  if (vp2_enabled) return vp2_yield();
+  if (!vp_pre_enabled || vp_pre_ran || vp_pre_inside) return 0;
+  vp_run_pending_unit();
+  return 1;
+}
+int vp_sched_inner(void) { return vp2_enabled ? vp2_ctx != 0 : vp_pre_inside; }
+int vp_sched_active(void) { return vp2_enabled || vp_pre_enabled; }
 #else
 #define vp_preempt_point() ((void)0) /* threaded (Tier K) and plain sequential modules: no hook at all */
 int vp_pre_enabled, vp_pre_ran, vp_pre_inside;
 void vp_run_pending_unit(void) {}
 void vp_sync_point(void) {}
 int vp_yield_to_pending(void) { return 0; }
+int vp_sched_inner(void) { return 0; }
+int vp_sched_active(void) { return 0; }
+void vp2_run_rest(void) {}
 #endif
 
 uint64_t vp_atomic_load(uint64_t a, int sz, int order) {
